@@ -591,10 +591,9 @@ package classifier
 //@   props C10 C04 C11
 //@
 //@ func (*Classifier).LoadLicenses$1
-//@   requires files != nil
 //@   ensures result == nil
-//@   ensures (err == nil && hasSuffix(path, "txt")) ==> len(*files) == old(len(*files)) + 1 && (*files)[len(*files)-1] == path
-//@   ensures !(err == nil && hasSuffix(path, "txt")) ==> same(*files, old(*files))
+//@   ensures (err == nil && hasSuffix(path, "txt")) ==> len(files) == old(len(files)) + 1 && files[len(files)-1] == path
+//@   ensures !(err == nil && hasSuffix(path, "txt")) ==> same(files, old(files))
 //@   props C12 C10
 //@
 //@ func (*Classifier).LoadLicenses
